@@ -104,6 +104,22 @@ def hard_bc_case(rng, Bs=(10, 12, 20, 30), nmin=6, nmax=11, tries=60):
     return B, vals
 
 
+def hard_bc_family(rng, count=12, tries=400):
+    """several inputs with ONE bin size and values from ONE small pool, on each of which best-fit-decreasing misses the lower bound:
+    the same completions recur from call to call (state about completions that survives a call is then visible in a later one)"""
+    import math
+    B = rng.choice([10, 12, 20, 30])
+    pool = sorted({rng.randint(max(1, B // 6), B) for _ in range(rng.randint(4, 6))})
+    res = []
+    for _ in range(tries):
+        vals = [rng.choice(pool) for _ in range(rng.randint(6, 11))]
+        if _bfd_count(vals, B) > math.ceil(sum(vals) / B) and vals not in res:
+            res.append(vals)
+            if len(res) >= count:
+                break
+    return B, res
+
+
 def _bfd_count(vals, B):
     bins = []
     for x in sorted(vals, reverse=True):
